@@ -265,7 +265,7 @@ void run_op(WorldRun &wr, int task, Pool &pool, const Op &op, uint32_t idx, Task
   log.cnt.faults_fired[F_SCALAR] += sim::g_cur->fired_scalar;
   log.cnt.faults_fired[F_CALLBACK] += sim::g_cur->fired_cb;
   // reuse probes
-  for (int t : {c.out.target, c.out.target2}) {
+  for (int t : {c.out.target, c.out.target2, c.out.pilfer1, c.out.pilfer2}) {
     if (t < 0) continue;
     if (log.failed_target[t]) probe(PR_POST_FAILURE_REUSE);
     if (log.moved_from[t]) probe(PR_MOVED_FROM_REUSE);
@@ -275,9 +275,11 @@ void run_op(WorldRun &wr, int task, Pool &pool, const Op &op, uint32_t idx, Task
   if (c.out.status >= ST_BSPLINE && c.out.target >= 0) log.failed_target[c.out.target] = true;
   if (c.out.status == ST_OK && c.out.target2 >= 0 && c.out.target2 != c.out.target)
     log.moved_from[c.out.target2] = true;
+  for (int t : {c.out.pilfer1, c.out.pilfer2})
+    if (t >= 0 && t != c.out.target) log.moved_from[t] = true;  // handed over as an xvalue: possibly moved from
   post_oracles(wr, pool, before, c, log.viol, task, idx, "op");
   for (int i = 0; i < NO; i++)
-    if (pool.osrc[i] >= 0 && (pool.osrc[i] == c.out.target || pool.osrc[i] == c.out.target2) && c.out.target != SLOT_O0 + i)
+    if (pool.osrc[i] >= 0 && (pool.osrc[i] == c.out.target || pool.osrc[i] == c.out.target2 || pool.osrc[i] == c.out.pilfer1 || pool.osrc[i] == c.out.pilfer2) && c.out.target != SLOT_O0 + i)
       pool.osrc_dirty[i] = true;
   if (task >= 0 && !log.pins.empty()) {
     // pinned references: dropped when their object was this operation's
@@ -285,7 +287,7 @@ void run_op(WorldRun &wr, int task, Pool &pool, const Op &op, uint32_t idx, Task
     sim::Exempt e;
     std::vector<Pin> keep;
     for (const Pin &p : log.pins) {
-      if (p.slot >= 0 && (p.slot == c.out.target || p.slot == c.out.target2)) continue;
+      if (p.slot >= 0 && (p.slot == c.out.target || p.slot == c.out.target2 || p.slot == c.out.pilfer1 || p.slot == c.out.pilfer2)) continue;
       probe(PR_PIN_CHECKED);
       uint32_t tag = p.ptr->raw_tag();
       uint64_t now = p.ptr->bits();
@@ -331,6 +333,23 @@ void task_body(void *arg, int id) {
     }
   }
   sim::begin_op((uint32_t)prog.size(), -1, -1, -1);
+  if (!wr.plan->deep && wr.plan->cold_check && !sim::world_stopped() && i == prog.size() && !prog.empty()) {
+    // cold runs: no oracle has evaluated anything so far, so whatever hidden
+    // evaluation state the library keeps was filled by the program's own calls
+    // (including its failed ones) only; every pooled spline must now evaluate
+    // like a pristine twin on a freshly built grid
+    sim::NoPreempt np;
+    size_t n0 = log.viol.size();
+    check_history_independence(pool, log.viol, "end-of-run");
+    for (size_t k = n0; k < log.viol.size(); k++) {
+      Violation &v = log.viol[k];
+      v.task = id;
+      v.op = (int)prog.size() - 1;
+      v.opkind = prog.back().kind;
+      v.site = "end-of-run";
+    }
+    if (has_fatal(*wr.plan, log.viol)) sim::stop_world();
+  }
   log.finished = true;
 }
 
@@ -409,6 +428,7 @@ void run_world(const Plan &plan, const sim::SchedConfig &cfg, WorldResult &res) 
     sim::LibRegion lr;
     wr.w.priv.clear();
     wr.w.mail.clear();
+    destroy_shared_objs(wr.w);
     // reset slot by slot: needs no assignment operator of any pooled class
     for (auto &x : wr.w.shared.o) x.reset();
     for (auto &x : wr.w.shared.og) x.reset();
